@@ -79,4 +79,98 @@ theorem emit_copy (w : WordOracle) (np nd window : Nat) (hp : np ≤ 3) (hnd : n
       obtain ⟨_, rfl⟩ := he
       split <;> simp
 
+/-! ### `cmdOK` of the emitted commands (NPOSTFIX = NDIRECT = 0) -/
+
+theorem combine_ge_128 : ∀ (ic cc : Fin 24), combineLengthCodes ic.val cc.val false ≥ 128 := by
+  decide +kernel
+
+theorem nbits_le_24 (dc : Nat) (hdc : dc < 2 ^ 26 + 12) : (prefixEncodeCopyDistance dc 0 0).nbits ≤ 24 := by
+  unfold prefixEncodeCopyDistance
+  split
+  · simp
+  · simp only [BV.Lemmas.PrefixArith.short_codes_is_16]
+    have hlt : 2 ^ (0 + 2) + (dc - 16 - 0) < 2 ^ 26 := by
+      have : (2:Nat) ^ 26 = 67108864 := by decide
+      omega
+    have hne : 2 ^ (0 + 2) + (dc - 16 - 0) ≠ 0 := by omega
+    have := (Nat.log2_lt hne).mpr hlt
+    unfold log2Floor
+    omega
+
+/-- `cmdOK` of a command built by `Command::init` (standard or large-window alphabet, no postfix
+bits / direct codes): insert length and copy code in range, distance code within the alphabet -/
+theorem cmdOK_commandInit (large : Bool) (ins len delta code : Nat) (hins : ins ≤ 2 ^ 24)
+    (hlen : len < 2 ^ 25) (hdelta : delta < 64) (hc2 : 2 ≤ len + delta) (hcu : len + delta < 2 ^ 24 + 2118)
+    (hcode : code < 2 ^ 31) (hstd : large = false → code < 2 ^ 26 + 12) :
+    cmdOK (distAlphabetSize large 0 0) 0 0 (commandInit 0 0 ins len (len + delta) code) = true := by
+  obtain ⟨f1, f2, f3, f4⟩ := commandInit_fields 0 0 ins len code (by omega) (by omega) hcode (by omega) hlen delta hdelta
+  have p24 : (2 : Nat) ^ 24 = 16777216 := by decide
+  have hnb := BV.Props.C18.dist_nbits_le 0 0 code hcode (by omega)
+  -- symbol / nbits / extra of the distance code
+  have hpk : (commandInit 0 0 ins len (len + delta) code).distPrefix
+      = (prefixEncodeCopyDistance code 0 0).nbits * 1024 + (prefixEncodeCopyDistance code 0 0).sym ∧
+      (prefixEncodeCopyDistance code 0 0).sym < 1024 := by
+    have hs : (prefixEncodeCopyDistance code 0 0).sym < 1024 := by rw [← f3]; exact Nat.mod_lt _ (by decide)
+    refine ⟨?_, hs⟩
+    simp only [commandInit, DistCode.packed]
+    rw [BV.Lemmas.PrefixArith.or_eq_add_of_lt _ _ hs]
+    exact Nat.mod_eq_of_lt (by omega)
+  obtain ⟨hpk1, hsym⟩ := hpk
+  have hdiv : (commandInit 0 0 ins len (len + delta) code).distPrefix / 1024 = (prefixEncodeCopyDistance code 0 0).nbits := by
+    rw [hpk1]; omega
+  have hflag : ((commandInit 0 0 ins len (len + delta) code).distPrefix % 1024 == 0)
+      = ((prefixEncodeCopyDistance code 0 0).packed &&& 0x3ff == 0) := by
+    rw [f3]
+    have : (prefixEncodeCopyDistance code 0 0).packed &&& 0x3ff = (prefixEncodeCopyDistance code 0 0).sym := by
+      rw [show (0x3ff : Nat) = 2 ^ 10 - 1 by decide, Nat.and_two_pow_sub_one_eq_mod]
+      have := f3; simp only [commandInit] at this; exact this
+    rw [this]
+  obtain ⟨i1, _, _⟩ := BV.Props.C18.ins_code_exact ins (by omega)
+  obtain ⟨c1, _, _⟩ := BV.Props.C18.copy_code_exact (len + delta) hc2 (by omega)
+  unfold cmdOK
+  simp only [f1, f2, f3, f4, hdiv, Bool.and_eq_true, decide_eq_true_eq, Bool.or_eq_true]
+  refine ⟨⟨⟨⟨⟨⟨⟨?_, by omega⟩, hc2⟩, by omega⟩, ?_⟩, ?_⟩, ?_⟩, ?_⟩
+  · -- the command symbol
+    simp only [commandInit]
+    rw [← f3]
+    simp only [commandInit]
+    congr 1
+    have : (prefixEncodeCopyDistance code 0 0).packed &&& 0x3ff = (prefixEncodeCopyDistance code 0 0).packed % 1024 := by
+      rw [show (0x3ff : Nat) = 2 ^ 10 - 1 by decide, Nat.and_two_pow_sub_one_eq_mod]
+    rw [this]
+  · -- a command symbol below 128 carries distance symbol 0
+    by_cases hz : (prefixEncodeCopyDistance code 0 0).sym = 0
+    · right; simp [hz]
+    · left
+      have hb : ((prefixEncodeCopyDistance code 0 0).packed &&& 0x3ff == 0) = false := by
+        have : (prefixEncodeCopyDistance code 0 0).packed &&& 0x3ff = (prefixEncodeCopyDistance code 0 0).sym := by
+          rw [show (0x3ff : Nat) = 2 ^ 10 - 1 by decide, Nat.and_two_pow_sub_one_eq_mod]
+          have := f3; simp only [commandInit] at this; exact this
+        rw [this]; simp [hz]
+      simp only [commandInit, hb, getLengthCode]
+      exact combine_ge_128 ⟨_, i1⟩ ⟨_, c1⟩
+  · -- inside the distance alphabet
+    by_cases hdir : code < 16 + 0
+    · rw [(BV.Props.C18.dist_direct_exact 0 0 code hdir).1]
+      simp only [distAlphabetSize]; split <;> omega
+    · cases large with
+      | true =>
+        have := BV.Props.C18.dist_symbol_lt_alphabet 0 0 code (by omega) 30 hnb
+        simp only [distAlphabetSize, if_true]; omega
+      | false =>
+        have h24 := nbits_le_24 code (hstd rfl)
+        have := BV.Props.C18.dist_symbol_lt_alphabet 0 0 code (by omega) 24 h24
+        simp only [distAlphabetSize]; simp; omega
+  · rw [hpk1]; omega
+  · by_cases hdir : code < 16 + 0
+    · have e := (BV.Props.C18.dist_direct_exact 0 0 code hdir).1
+      rw [e]
+      simp only []
+      rw [if_pos (by omega)]
+      simp
+    · obtain ⟨e1, e2, e3, e4, e5⟩ := BV.Props.C18.dist_encode_exact 0 0 code (by omega)
+      rw [if_neg (by omega)]
+      simp only [Bool.and_eq_true, decide_eq_true_eq]
+      exact ⟨⟨e1, e3⟩, by omega⟩
+
 end BV.Cbr
